@@ -118,6 +118,23 @@ class Opaque:       # a value we only pass around (writers, rngs, ...)
 UNIT = Opaque("unit")
 
 
+class LazyStruct:
+    """a value of an environment type known only by the path of projections that leads to it (fields are created on demand)"""
+
+    def __init__(self, path, ty="?"):
+        self.path = path
+        self.ty = ty
+        self.kids = {}
+
+    def child_cell(self, idx):
+        if idx not in self.kids:
+            self.kids[idx] = Cell(LazyStruct(f"{self.path}.{idx}"))
+        return self.kids[idx]
+
+    def __repr__(self):
+        return f"<{self.path}>"
+
+
 def clone_value(v, memo):
     if isinstance(v, ElemCell):
         if v.id in memo:
@@ -290,6 +307,8 @@ class Engine:
         self.fns = fns
         self.models = models
         self.stats = {"paths": 0, "calls_inlined": 0, "model_calls": 0, "functions": set()}
+        self.track_panics = False     # obligations about panic freedom switch this on
+        self.panics = []              # [(path condition, what, function)]
 
     # ---- memory
     def cell_of(self, st: State, frame, steps):
@@ -328,9 +347,14 @@ class Engine:
                     pass
                 elif isinstance(v, EnumV):
                     hit = [pl for (nm, pl) in v.variants if nm == step[1]]
-                    if len(hit) != 1:
+                    if len(hit) > 1:
                         raise Unsupported(f"downcast of {v.name} to {step[1]}")
-                    cur = Cell(Agg(step[1], [Cell(x) for x in hit[0]]))
+                    if not hit:
+                        # a variant the environment did not spell out: its payload is an arbitrary value
+                        dname = str(v.discr)
+                        cur = Cell(Agg(step[1], [Cell(LazyStruct(f"{v.name}[{dname}]::{step[1]}"))]))
+                    else:
+                        cur = Cell(Agg(step[1], [Cell(x) for x in hit[0]]))
                 elif isinstance(v, Opaque) and v.what == "enum":
                     cur = Cell(Agg(step[1], [Cell(Opaque("enum-payload", step[1]))]))
                 elif isinstance(v, Opaque) and v.what == "result" and step[1] in ("Ok", "Err"):
@@ -356,6 +380,15 @@ class Engine:
             last = name.split("::")[-1]
             if fn is not None and re.fullmatch(r"[A-Z_0-9]+", last) and last in fn.consts:
                 return Z(z3.IntVal(fn.consts[last]))
+            mp = re.search(r"::promoted\[(\d+)\]$", name)
+            if mp and fn is not None:
+                # a promoted constant of the current function: evaluate its body (printed as a `const ...::promoted[N]` item)
+                cands = [f for f in self.fns if f.name == f"const {fn.name}::promoted[{mp.group(1)}]"]
+                if len(cands) == 1:
+                    res = list(self.run_fn(cands[0], [], st))
+                    if len(res) != 1:
+                        raise Unsupported("promoted constant with several values")
+                    return res[0][1]
             m = re.match(r"^ZeroSized: \{closure@([^}]*)\}$", name)
             if m:
                 return Closure(self.find_closure(m.group(1)), Agg("closure", []))
@@ -536,8 +569,21 @@ class Engine:
             if m:
                 bb = m.group(2)
                 continue
-            m = re.match(r"^assert\((.*)\) -> \[success: (bb\d+)", t)
-            if m:
+            m = re.match(r"^assert\((!?)(.*?), \"(.*)\) -> \[success: (bb\d+)", t)
+            if m and getattr(self, "track_panics", False):
+                # a compiler-inserted check (bounds, overflow, division): the failing side is a panic, execution goes on under the condition
+                v = self.operand(st, frame, m.group(2))
+                if not (isinstance(v, Z) and z3.is_bool(v.e)):
+                    raise Unsupported("assert terminator on " + type(v).__name__)
+                cond = z3.Not(v.e) if m.group(1) else v.e
+                if st.feasible(z3.Not(cond)):
+                    self.panics.append((list(st.pc) + [z3.Not(cond)], "assert: " + m.group(3)[:80], fn.name))
+                st.pc.append(cond)
+                if not st.feasible():
+                    return
+                bb = m.group(4)
+                continue
+            if re.match(r"^assert\(", t):
                 raise Unsupported("assert terminator: " + t)
             m = re.match(r"^switchInt\((.*?)\) -> \[(.*)\]$", t)
             if m:
@@ -567,6 +613,7 @@ class Engine:
             if m:
                 lhs, callee, argstr, nxt = m.group(1), m.group(2), m.group(3), m.group(4)
                 argv = [self.operand(st, frame, a) for a in split_top(argstr)]
+                self.cur_ret_type = fn.locals.get(lhs.strip(), "?")      # (a contract may want to know what kind of value is expected)
                 for (s2, ret) in self.call(callee, argv, st):
                     fr2 = s2.frames[fidx]
                     self.cell_of(s2, fr2, parse_place(lhs)).v = ret
@@ -574,7 +621,9 @@ class Engine:
                 return
             m = re.match(r"^(.*?) = (.*)\((.*)\) -> (\[?unwind|bb\d+$)", t)
             if m:
-                # diverging call (no return target)
+                # diverging call (no return target): a panic
+                if getattr(self, "track_panics", False) and st.feasible():
+                    self.panics.append((list(st.pc), "call: " + m.group(2)[:80], fn.name))
                 return
             raise Unsupported("terminator: " + t)
 
